@@ -35,9 +35,16 @@ class MTable:
         self.data = {k: list(data[k]) for k in self.cols}
         self.index = index
         self.scalars = dict(scalars or {})
+        self.width = {}        # fixed-width string columns: name -> number of characters kept on assignment
 
     def copy(self):
-        return MTable(self.cols, self.data, self.index, self.scalars)
+        m = MTable(self.cols, self.data, self.index, self.scalars)
+        m.width = dict(self.width)
+        return m
+
+    def clip(self, col, v):
+        w = self.width.get(col)
+        return v[:w] if (w is not None and isinstance(v, str)) else v
 
     def n(self):
         return len(self.data[self.cols[0]])
@@ -174,7 +181,9 @@ class MTable:
 
     # ---- derivations (C14) ---------------------------------------------------------
     def take_rows(self, idx):
-        return MTable(self.cols, {k: [self.data[k][i] for i in idx] for k in self.cols}, self.index, self.scalars)
+        m = MTable(self.cols, {k: [self.data[k][i] for i in idx] for k in self.cols}, self.index, self.scalars)
+        m.width = dict(self.width)
+        return m
 
     def take_cols(self, names, values=None):
         """names may contain expressions; values: dict name -> list for expression columns"""
